@@ -22,6 +22,8 @@ VIA_RE = re.compile(r"VIA: (?:file: \S+ )?line: ([0-9]+) column: ([0-9]+)")
 
 
 def expr_tokens(e):
+    if e[0] == "raw":
+        return list(e[1])
     pr = gen.Printer()
     pr.expr(e, True)
     return [t for t in pr.toks if not isinstance(t, tuple)]
@@ -66,6 +68,25 @@ def semantic_faults(r):
         ("bad-copy", ("copy", ("sym", "rec"), [("a", ("call", ("sym", "idf"), [("str", "w")]))])),
         ("missing-field", ("sel", ("call", ("sym", "idf"), [("sym", "rec")]), ("f", "zz"))),
         ("unhandled-select", ("select", ("call", ("sym", "idf"), [("str", "zz")]), None, [("a", ("int", 1))])),
+        # ... with operands selected from a tuple or list that an earlier statement built
+        ("failed-cast:selected-operand", ("cast", "int", ("sel", ("sym", "rec2"), ("f", "s")))),
+        ("failed-cast:selected-operand", ("cast", "int", ("sel", ("sym", "lst2"), ("i", 0)))),
+        ("type-mismatch:selected-operand", ("bin", "+", ("int", 1), ("sel", ("sym", "rec2"), ("f", "s")))),
+        ("type-mismatch:selected-operand", ("bin", "+", ("int", 1), ("sel", ("sym", "lst2"), ("i", 0)))),
+        ("type-mismatch:selected-operand", ("not", ("sel", ("sym", "rec2"), ("f", "n")))),
+        ("type-mismatch:selected-operand", ("bin", "&&", ("bool", True), ("sel", ("sym", "lst2"), ("i", 1)))),
+        ("bad-copy:selected-operand", ("copy", ("sym", "rec"), [("a", ("sel", ("sym", "rec2"), ("f", "s")))])),
+        # ... with an operand that is the result of instantiating a module an earlier statement defined
+        ("failed-cast:module-result-operand", ("cast", "int", ("copy", ("sym", "modw"), []))),
+        ("type-mismatch:module-result-operand", ("bin", "+", ("int", 1), ("copy", ("sym", "modw"), []))),
+        # a fault inside the expression of a format template
+        ("unknown-name:in-format-template", ("fmt1", [("lit", "v="), ("e", ("sym", "nope"))], ("tuple", [("a", ("int", 1))]))),
+        ("missing-field:in-format-template", ("fmt1", [("e", ("sel", ("sym", "item"), ("f", "zz")))], ("tuple", [("a", ("int", 1))]))),
+        ("failed-cast:in-format-template", ("fmt1", [("e", ("cast", "int", ("sel", ("sym", "item"), ("f", "a"))))], ("tuple", [("a", ("str", "x1"))]))),
+        # faults of built-in operations that read something outside the program
+        ("bad-regex", ("bin", "~", ("str", "x"), ("str", "("))),
+        ("missing-include", ("raw", ["include", "str", "\"no-such-file.txt\""])),
+        ("missing-import", ("raw", ["import", "\"no-such-file.ucg\""])),
     ]
 
 
@@ -125,7 +146,9 @@ def build_case(probe, r, nvalid, kind, ftoks, host, pos):
     """-> (token list with stmt marks, fault stmt index, call stmt index or None)"""
     prelude = [["let", "idf", "=", "func", "(", "a", ")", "=>", "a", ";"], ["let", "seven", "=", "7", ";"],
                ["let", "word", "=", "\"w\"", ";"], ["let", "yes", "=", "true", ";"],
-               ["let", "rec", "=", "{", "a", "=", "1", "}", ";"], ["let", "lst", "=", "[", "1", "]", ";"]]
+               ["let", "rec", "=", "{", "a", "=", "1", "}", ";"], ["let", "lst", "=", "[", "1", "]", ";"],
+               ["let", "rec2", "=", "{", "s", "=", "\"w\"", ",", "n", "=", "7", "}", ";"], ["let", "lst2", "=", "[", "\"w\"", ",", "7", "]", ";"],
+               ["let", "modw", "=", "module", "{", "}", "=>", "(", "r", ")", "{", "let", "r", "=", "\"w\"", ";", "}", ";"]]
     for attempt in range(8):
         stmts, _ = progs.gen_program(r, depth=2, nstmts=max(2, nvalid), p_bad=0.0, ascii_only=True)
         stmts = [s for s in stmts if s[0] == "let"]
@@ -255,8 +278,8 @@ def task(args):
             nvalid = r.randint(1, 10)
             pos = r.randint(0, nvalid)
             toks, fidx, cidx, nst = build_case(probe, r, nvalid, kind, ftoks, host, pos)
-            if issyn:
-                cidx = None     # a syntax error is reported before anything is called
+            if issyn or kind == "missing-import":
+                cidx = None     # a syntax error (or an import that cannot be linked) is reported before anything is called
             nl = r.choice(["\n", "\n", "\r\n"])
             lay = gen.Layout(r, newline=nl, p_newline=0.35, p_comment=0.0, p_tight=0.5, stmt_own_line=True)
             text, tokpos, spans, _ = lay.render(toks)
